@@ -866,6 +866,13 @@ where
                         return None;
                     }
                     Err(e) => {
+                        // A budget breach raised by the first node of a document is a failure
+                        // of that document only: recover at the next document boundary.
+                        if matches!(e.without_snippet(), Error::Budget { .. })
+                            && self.src.skip_to_next_document()
+                        {
+                            return Some(Err(e));
+                        }
                         self.finished = true;
                         let _ = self.src.finish();
                         return Some(Err(e));
@@ -1240,6 +1247,13 @@ where
                         return None;
                     }
                     Err(e) => {
+                        // A budget breach raised by the first node of a document is a failure
+                        // of that document only: recover at the next document boundary.
+                        if matches!(e.without_snippet(), Error::Budget { .. })
+                            && self.src.skip_to_next_document()
+                        {
+                            return Some(Err(e));
+                        }
                         self.finished = true;
                         let _ = self.src.finish();
                         return Some(Err(e));
@@ -1965,6 +1979,13 @@ where
                         return None;
                     }
                     Err(e) => {
+                        // A budget breach raised by the first node of a document is a failure
+                        // of that document only: recover at the next document boundary.
+                        if matches!(e.without_snippet(), Error::Budget { .. })
+                            && self.src.skip_to_next_document()
+                        {
+                            return Some(Err(e));
+                        }
                         self.finished = true;
                         let _ = self.src.finish();
                         return Some(Err(e));
